@@ -37,6 +37,9 @@ def append (s : GoSlice α) (v : α) : GoSlice α :=
 /-- `copy(dst, src)`: the first `min(len(dst), len(src))` elements -/
 def copy (dst src : GoSlice α) : GoSlice α :=
   { dst with arr := Array.ofFn (n := dst.arr.size) (fun i => if h : i.val < src.arr.size then src.arr[i.val] else dst.arr[i]) }
+/-- `s == nil`. A slice of length and capacity 0 is identified with the nil slice (no translated
+    function creates a non-nil slice of capacity 0 and compares it with nil). -/
+def isNil (s : GoSlice α) : Bool := s.arr.size == 0 && s.cap == 0
 /-- `for i := range s { s[i] = v }` -/
 def fill (s : GoSlice α) (v : α) : GoSlice α := { s with arr := Array.replicate s.arr.size v }
 /-- `s[:hi]` for `hi ≤ len(s)` (re-slicing into the hidden capacity is refused) -/
